@@ -1,10 +1,12 @@
 #!/bin/sh
-# all properties on the clean tree (quick tier) + the variant/seeded corpus; prints only what is not as expected
+# all properties on the clean tree (quick tier) + the variant/seeded corpus; exit 1 unless everything is as expected
 cd /verif
 bad=0
 for p in C01 C02 C03 C04 C05 C07 C08 C09 C10 C11 C12 C13 C14 C15 C16 C18 C19 C20; do
-  out=$(./check $p | tail -1)
-  case "$out" in *HOLDS*) ;; *) echo "$out"; bad=1;; esac
+  out=$(./check $p 2>&1 | tail -1)
+  case "$out" in *HOLDS*) ;; *) echo "$p: $out"; bad=1;; esac
 done
-./check --selftest 2>&1 | egrep "^(MISSED|WRONG|analysis|ANALYSIS)|^selftest"
-[ $bad = 0 ] && echo "clean tree: all 18 properties hold"
+st=$(./check --selftest 2>&1 | egrep "^(MISSED|WRONG|analysis|ANALYSIS)")
+[ -n "$st" ] && { echo "$st"; bad=1; }
+./check --selftest 2>&1 | egrep "^selftest"
+[ $bad = 0 ] && echo "clean tree: all 18 properties hold; no missed variant" || { echo "PRECOMMIT FAILED"; exit 1; }
